@@ -54,15 +54,6 @@ PROPS = {
         "level_note": "Trusted: Coq kernel, extraction, driver, harness, transcription Model/Utf8.v (checked by execution); Rust str::char_indices and String byte slicing; the pointer arithmetic of subslice_utf8_offset is modelled as the byte position of the selection's begin. Print Assumptions: closed under the global context.",
         "assumptions": ["UTF-8 encoding lengths of scalar values as in clen (1-4 bytes)"],
     },
-    "C08": {
-        "coq_targets": ["Props/C08.v", "Run/C08.v"],
-        "audit": "Audit/C08.v",
-        "gen": [],
-        "classes": {},
-        "level_text": "Layer 1 (helper collections of the query engine) is proved: LimitIter = the documented slice for every list and every pair of bounds in Z (C08_limit_is_slice); Handles::union = duplicate-free union with order retained / sortedness kept, Handles::intersection = set intersection, contains() correct afterwards (representation invariant `ok` preserved), including the sorted fast paths with their offset arithmetic. Tied to the code by exhaustive small-scope + random correspondence through LimitIterator::limit and Handles<Annotation>. The query evaluator itself (constraint order independence, sub-queries, ADD/DELETE) is NOT covered by this check yet.",
-        "level_note": "Trusted: Coq kernel, extraction, driver, harness, transcriptions Model/Limit.v and Model/Handles.v (checked by execution), slice::binary_search/sort_unstable of std on sorted duplicate-free input. Hypotheses: collections hold distinct handles (NoDup) - that is what ToHandles produces; isize overflow (begin = isize::MIN) is not modelled. Print Assumptions: closed under the global context.",
-        "assumptions": ["Handles collections contain each handle at most once", "no isize overflow in LimitIter bounds"],
-    },
     "C13": {
         "coq_targets": ["Props/C13.v", "Run/C13.v"],
         "audit": "Audit/C13.v",
